@@ -28,7 +28,7 @@ from antismash.common import hmmer
 from antismash.common.hmmscan_refinement import HMMResult
 from antismash.common.secmet import Record
 from antismash.common.secmet.features import Prepeptide, SubRegion
-from antismash.common.secmet.locations import CompoundLocation, FeatureLocation
+from antismash.common.secmet.locations import CompoundLocation, FeatureLocation, location_from_string
 from antismash.detection.nrps_pks_domains import domain_identification
 from antismash.modules.tta import tta
 
@@ -364,6 +364,49 @@ def drive_pfam(ctx, gene: Gene, ranges, database, case):
                 ctx.violate("annotation-translation-qualifier", dict(facts, range=[s, e]), case)
 
 
+def drive_pfam_paralogs(ctx, gene: Gene, ranges, database, case, copy_first: bool):
+    """ the same gene twice in one record (a duplicated stretch) with the same profile hitting both copies at the same
+        residues: every hit has to lie in the gene it names """
+    shift = len(gene.seq)
+    bio = SeqRecord(Seq(case["seq"] * 2), id="c09rec", name="c09rec", description="generated",
+                    annotations={"molecule_type": "DNA", "topology": "linear"})
+    for name, offset in (("gene1", 0), ("gene2", shift)):
+        qualifiers = {"locus_tag": [name]}
+        if case["codon_start"] != 1 or case.get("explicit_codon_start"):
+            qualifiers["codon_start"] = [str(case["codon_start"])]
+        bio.features.append(SeqFeature(make_location([(a + offset, b + offset) for a, b in case["parts"]], case["strand"]),
+                                       type="CDS", qualifiers=qualifiers))
+    record = Record.from_biopython(bio, taxon="bacteria")
+    names = ["gene2", "gene1"] if copy_first else ["gene1", "gene2"]
+    results = []
+    for name in names:
+        result = _QueryResult([_Hsp(name, s, e, "FakeDomain") for s, e in ranges])
+        result.id = name
+        results.append(result)
+    facts = dict(gene.facts, via="hmmer.build_hits (two copies of the gene in one record)", first_in_results=names[0])
+    try:
+        hits = hmmer.build_hits(record, results, 0.0, 1.0, database)
+    except Exception as err:  # pylint: disable=broad-except
+        ctx.violate("annotation-crash", dict(facts, exception=type(err).__name__, message=str(err)[:160], ranges=ranges), case)
+        return
+    if [(h.locus_tag, h.protein_start, h.protein_end) for h in hits] != [(n, s, e) for n in names for s, e in ranges]:
+        ctx.violate("pfam-hits-all-annotated", dict(facts, got=len(hits), expected=2 * len(ranges)), case)
+        return
+    for hit in hits:
+        ctx.count("op:pfam_hit_paralog")
+        offset = shift if hit.locus_tag == "gene2" else 0
+        expected = [pos + offset for pos in gene.positions[3 * hit.protein_start:3 * hit.protein_end]]
+        got = list(location_from_string(hit.location))
+        if got != expected:
+            inside = all(offset <= pos < offset + shift for pos in got)
+            ctx.violate("sub-inside-gene" if not inside else "sub-extract-equals-gene-slice",
+                        dict(facts, locus_tag=hit.locus_tag, range=[hit.protein_start, hit.protein_end], got=hit.location), case)
+            return
+        if hit.translation != gene.translation[hit.protein_start:hit.protein_end]:
+            ctx.violate("annotation-translation-qualifier", dict(facts, locus_tag=hit.locus_tag), case)
+            return
+
+
 def drive_nrps(ctx, gene: Gene, domain_ranges, motif_ranges, case):
     facts = dict(gene.facts, via="nrps_pks.annotate_domains")
     domains = [HMMResult("PKS_KS" if i % 2 else "Condensation_LCL", s, e, 1e-20, 100.0 + i)
@@ -516,6 +559,8 @@ def run_case(ctx, case, rng, database):
     in_translation = [r for r in ranges if r[1] <= len(gene.translation)]
     if in_translation:
         drive_pfam(ctx, gene, _pick(rng, in_translation, border, 6), database, case)
+        if not gene.bridging:
+            drive_pfam_paralogs(ctx, gene, _pick(rng, in_translation, border, 3), database, case, rng.random() < 0.5)
         drive_nrps(ctx, gene, _pick(rng, in_translation, border, 4), _pick(rng, in_translation, border, 3), case)
     drive_tta(ctx, gene, case)
 
